@@ -1302,7 +1302,11 @@ def rule_show_diffs_compares_all(repo: Repo, rep, rule: str = "R9.4") -> None:
             return q is lp
 
         for x in ast.walk(lp):
-            if isinstance(x, ast.If) and any(isinstance(b, (ast.Continue, ast.Break)) and _own_jump(b) for b in x.body) and not _harmless_filter(x.test):
+            # `if <old content> == <new content>: continue` is the comparison itself, not a skip
+            is_cmp = isinstance(x, ast.If) and isinstance(x.test, ast.Compare) and len(x.test.ops) == 1 and isinstance(x.test.ops[0], ast.Eq) and all(
+                any(isinstance(c, ast.Call) and isinstance(c.func, ast.Attribute) and c.func.attr in ("read_bytes", "read_text", "splitlines") for c in ast.walk(SL.inline(side)))
+                for side in (x.test.left, x.test.comparators[0]))
+            if isinstance(x, ast.If) and any(isinstance(b, (ast.Continue, ast.Break)) and _own_jump(b) for b in x.body) and not _harmless_filter(x.test) and not is_cmp:
                 skipped = skipped or (x, f"`{norm(x.test)[:60]}` skips files of the newly generated tree")
     if skipped:
         rep.violation(rule, f"{sd.module.relpath}:_show_diffs compares every generated file", f"{sd.fq}|files-left-out",
